@@ -41,7 +41,7 @@ func sockConfigs(thorough bool) []config {
 		{Name: "tcp/1-sender", Kind: "tcp", Senders: 1, NS: 2, NR: 2, MaxW: 2, MaxR: 2, Cap: 100, SAbort: true, RAbort: true, Budget: b, ToMs: 25, WToMs: 2000},
 		{Name: "tcp/1-sender/blocked-read", Kind: "tcp", Senders: 1, NS: 2, NR: 2, MaxW: 2, MaxR: 2, Cap: 100, SAbort: true, RAbort: true, Blocked: true, Budget: b, ToMs: 3000, WToMs: 3000},
 		{Name: "tcp/length", Kind: "tcp", Senders: 1, NS: 2, NR: 2, MaxW: 2, MaxR: 2, Cap: 100, SAbort: false, RAbort: true, Len: true, Budget: b0, ToMs: 25, WToMs: 2000},
-		{Name: "tcp/slow-receiver", Kind: "tcp", Senders: 1, NS: 4, NR: 2, MaxW: 1, MaxR: 1, Cap: 1, SAbort: false, RAbort: true, Budget: b, ToMs: 25, WToMs: 150},
+		{Name: "tcp/slow-receiver", Kind: "tcp", Senders: 1, NS: 4, NR: 2, MaxW: 1, MaxR: 1, Cap: 1, SAbort: false, RAbort: true, Stall: true, Budget: b, ToMs: 25, WToMs: 150},
 		{Name: "tcp/slow-receiver-length", Kind: "tcp", Senders: 1, NS: 3, NR: 1, MaxW: 2, MaxR: 2, Cap: 1, SAbort: false, RAbort: true, Len: true, Budget: b0, ToMs: 25, WToMs: 150},
 		{Name: "tcp/2-senders", Kind: "tcp", Senders: 2, NS: 1, NR: 2, MaxW: 2, MaxR: 2, Cap: 100, SAbort: true, RAbort: true, Budget: b, ToMs: 25, WToMs: 2000},
 		{Name: "tcp/2-senders/blocked-read", Kind: "tcp", Senders: 2, NS: 1, NR: 2, MaxW: 2, MaxR: 2, Cap: 100, SAbort: true, RAbort: true, Blocked: true, Budget: b, ToMs: 3000, WToMs: 3000},
@@ -143,6 +143,7 @@ func TestCheck(t *testing.T) {
 		res.Assumptions = []string{
 			"no connection failure is injected (out of scope by the statement); timeouts are real for the socket kinds and virtual (synctest) for the Go-channel kinds",
 			"operations are issued by one driver exactly as MPCalContext.Run issues them (Index, Read/WriteValue, PreCommit of all, Commit of all / Abort of all); goroutine interleavings inside handleConn are not controlled",
+			"a Commit that does not return within three write timeouts while nobody reads stays in flight and the receiver goes on (back-pressure during Commit); after the drain every Commit must have returned and the per-link oracle must hold; slow-receiver configurations also have one explicit move during which nobody reads for 2.5 write timeouts",
 			"socket kinds: after every acknowledged send the driver waits (accessor) until it is visible at the receiver; an acknowledged send that is not visible after 12 s, six times in a row, is reported as lost",
 			"an abort answered by the implementation where the model sees a deliverable message is accepted for the socket kinds (a timer may win under load) and counted as spurious_aborts; in bubbles time is virtual and it is not accepted",
 			"CustomInChan's timeout default TRUE is its documented timeout answer, not a message",
